@@ -1,4 +1,8 @@
 //verif:pkg stdlib/rlp
+//verif:assume input length bounded (see bounds); every byte value and 8-byte length prefixes up to 2^64-1 are inside the bound
+//verif:assume DecodeString/DecodeList are called with startIndex 0 as the Cadence wrappers do; ReadSize with arbitrary startIndex >= 0
+//verif:assume array-value conversion in stdlib/rlp.go (atree) is outside the claim; its trailing-bytes test is checked on the symbolic results
+//verif:assume slice growth policy of append is modelled as doubling (not observable by the code under test)
 package PKGNAME
 
 // Reference ("spec") header reader written from the RLP definition (Ethereum yellow paper,
@@ -49,7 +53,7 @@ func zzBytesEq(a, b []byte) bool {
 	return r
 }
 
-//verif:harness property=C46 mode=bv unwind=40
+//verif:harness property=C46 mode=bv unwind=40 lens=0..10 thorough_lens=0..12
 func ZZ_C46_ReadSize_LLEN() {
 	inp := zzNondetBytes(LEN)
 	start := zzNondetInt()
@@ -81,7 +85,7 @@ func ZZ_C46_ReadSize_LLEN() {
 	zzAssert("header-fields", zzAnd(r.isStr == isStr, zzAnd(r.dStart == ds, uint64(r.size) == dl)))
 }
 
-//verif:harness property=C46 mode=bv unwind=40
+//verif:harness property=C46 mode=bv unwind=40 lens=0..10 thorough_lens=0..14
 func ZZ_C46_DecodeString_LLEN() {
 	inp := zzNondetBytes(LEN)
 	type ds struct {
@@ -124,7 +128,7 @@ func ZZ_C46_DecodeString_LLEN() {
 	zzAssert("trailing-bytes-detectable", (r.read != len(inp)) == (end != len(inp)))
 }
 
-//verif:harness property=C46 mode=bv unwind=40
+//verif:harness property=C46 mode=bv unwind=40 lens=0..4 thorough_lens=0..6
 func ZZ_C46_DecodeList_LLEN() {
 	inp := zzNondetBytes(LEN)
 	type dl struct {
@@ -188,7 +192,7 @@ func ZZ_C46_DecodeList_LLEN() {
 // Targeted: a short-form list whose first item has a long-form (1..8 byte) length prefix. This
 // reaches the 2^63..2^64 item sizes inside the bound without the path explosion of the
 // unconstrained list of the same length.
-//verif:harness property=C46 mode=bv unwind=40
+//verif:harness property=C46 mode=bv unwind=40 lens=3..10 thorough_lens=3..12
 func ZZ_C46_DecodeListLongItem_LLEN() {
 	inp := zzNondetBytes(LEN)
 	zzAssume(inp[0] >= 0xc1 && inp[0] <= 0xf7)
